@@ -2798,6 +2798,8 @@ func (dsc *dataStoreCommand) diffSetStore(destination, keyName string, withKeyNa
 func (dsc *dataStoreCommand) intersectWorker(firstKey string, keyNames ...string) (d *redisDict, wrongType bool) {
 	sk, objExists := dsc.getKeyObjectUnlocked(firstKey)
 	if !objExists {
+		// an absent key is an empty set; the remaining keys are still type-checked
+		wrongType = dsc.anyWrongTypeSetUnlocked(keyNames)
 		d = newRedisDict()
 		return
 	}
@@ -2810,9 +2812,10 @@ func (dsc *dataStoreCommand) intersectWorker(firstKey string, keyNames ...string
 
 	d = m.clone()
 
-	for _, keyName := range keyNames {
+	for idx, keyName := range keyNames {
 		sk2, objExists := dsc.getKeyObjectUnlocked(keyName)
 		if !objExists {
+			wrongType = dsc.anyWrongTypeSetUnlocked(keyNames[idx+1:])
 			d = newRedisDict()
 			return
 		}
@@ -2837,6 +2840,17 @@ func (dsc *dataStoreCommand) intersectWorker(firstKey string, keyNames ...string
 	}
 
 	return
+}
+
+// reports whether one of the keys holds something other than a set (an absent
+// key is an empty set)
+func (dsc *dataStoreCommand) anyWrongTypeSetUnlocked(keyNames []string) bool {
+	for _, keyName := range keyNames {
+		if sk, objExists := dsc.getKeyObjectUnlocked(keyName); objExists && sk.getSet() == nil {
+			return true
+		}
+	}
+	return false
 }
 
 func (dsc *dataStoreCommand) intersectWithLimitWorker(limit int, keyNames ...string) (d *redisDict, wrongType bool) {
